@@ -124,6 +124,8 @@ def head_goes_out_with_first_write(ctx):
 
 
 def check(ctx):
+    from . import _http
+    _http.last_chunk_consumes_terminator(ctx, "T1-lastchunk")
     responder_framing(ctx)
     head_goes_out_with_first_write(ctx)
     vr = ctx.cls("aio.http.serving", "Valet").own_method("serviceReps")
